@@ -281,7 +281,7 @@ func visitInstr(fr *frame, instr ssa.Instruction) continuation {
 			k := fr.i.p.concretize(sp.idx, "store-index")
 			addr = &sp.base[k]
 		}
-		store(mustDeref(instr.Addr.Type()), addr.(*value), fr.get(instr.Val))
+		storeP(fr.i.p, mustDeref(instr.Addr.Type()), addr.(*value), fr.get(instr.Val))
 
 	case *ssa.If:
 		succ := 1
